@@ -30,7 +30,16 @@ from .gen_sampler import norm_key, is_complement, complements, materialise
 # ---------------------------------------------------------------------------
 
 # resolver-side C09 monitor: free ions that need hydrogens of their own, salts, unused descriptors
+# molecules with more than 1000 heavy atoms (rare: about two seconds each)
+BIG_STRINGS = [
+    "{[#A][#B]|560[#D]}.{#A=CC[!],#B=[!]CCC[!],#D=[!]CC}",
+    "{[#A][#B]|520[#D]}.{#A=CC[$],#B=[$]CC[$],#D=[!]CC[!]}",
+    "{[#A][#B]|350[#D]}.{#A=OC[$],#B=[$]C(C)C[$]O,#D=[$]C}",
+]
 ION_STRINGS = [
+    # several molecules in one system
+    "{[#A][#B].[#C]}.{#A=[$]CC,#B=[$]O,#C=O}",
+    "{[#A].[#B].[#A]}.{#A=CCO,#B=[NH4+].[Cl-]}",
     "{[#A]}.{#A=CC(=O)[O-].[NH4+]}",
     "{[#A][#B]}.{#A=CC[$].[OH-],#B=[$]C[NH3+]}",
     "{[#A][#B]}.{#A=OC[$].[OH3+],#B=[$]CC(=O)[O-]}",
@@ -98,10 +107,13 @@ def generate(run_seed, prop, tier="quick"):
                 "entropy": entropy, "ops": ops, "faults_enabled": sorted(k for k, v in faults.items() if v)}
     if prop == "C09":
         scenario["resolver_items"] = [gen_mol.build_item(rng, kind="atomistic", weights=rng.random() < 0.5,
-                                                         hyper=("S", "P", "N") if rng.random() < 0.5 else (),
-                                                         explicit_h=rng.random() < 0.3) for _ in range(rng.choice([1, 2]))]
+                                                         hyper=rng.choice([(), ("S", "P", "N"), ("S", "P", "N", "exotic")]),
+                                                         explicit_h=rng.random() < 0.3,
+                                                         components=rng.choice([1, 1, 1, 2, 3])) for _ in range(rng.choice([1, 2]))]
         if rng.random() < 0.3:
             scenario["resolver_strings"] = [rng.choice(ION_STRINGS)]
+        if rng.random() < 0.02:
+            scenario["resolver_strings"] = scenario.get("resolver_strings", []) + [rng.choice(BIG_STRINGS)]
     return scenario
 
 
